@@ -25,7 +25,7 @@ ASSUMPTIONS = [
 ]
 PLAN = {"quick": dict(programs=4000, values=3, depth=3), "thorough": dict(programs=40000, values=6, depth=4)}
 FLOORS = {"quick": {"carrier_sets_compared": 100000, "text_vs_value": 25000, "load_contract_checked": 500000, "load_nontext_identity": 30000},
-          "thorough": {"carrier_sets_compared": 2000000, "text_vs_value": 300000, "load_contract_checked": 5000000, "load_nontext_identity": 600000}}
+          "thorough": {"carrier_sets_compared": 2000000, "text_vs_value": 300000, "load_contract_checked": 5000000, "load_nontext_identity": 300000}}
 
 LOOKALIKES = ["", " ", "1", " 1 ", "1.0", "-0", "1e5", "1E400", "null", "None", "true", "True", "false", "nan", "NaN", "Infinity", "-Infinity",
               "[1]", "[1, 2]", "[1,2", '{"a":1}', '{"a":', "{'a': 1}", "(1, 2)", "1,2", "{1, 2}", "[]", "{}", "()", '"q"', "'q'", '"\\u00e9"',
